@@ -763,7 +763,7 @@ func (e *SpecEnv) evalCall(n *ECall) SVal {
 		if !ok {
 			sfail("fresh: not a slice")
 		}
-		return SVal{V: o.Ge(s.Reg, e.allocPre), T: typBool}
+		return SVal{V: o.Or(o.Ge(s.Reg, e.allocPre), o.Eq(s.Reg, o.Int(0))), T: typBool}
 	case "sameOrFresh":
 		v, w := arg(0), arg(1)
 		s, ok1 := v.V.(SliceVal)
@@ -789,6 +789,50 @@ func (e *SpecEnv) evalCall(n *ECall) SVal {
 			cur = o.Store(cur, o.Idx(int64(i)), e.asInt(arg(i), tyByte))
 		}
 		return SVal{V: StrVal{Arr: cur, Off: o.Idx(0), Len: o.Idx(int64(len(n.Args)))}, T: typString}
+	case "fdiv", "fmod":
+		// floor division / modulus by a positive constant divisor
+		a, b := arg(0), arg(1)
+		if b.C == nil || b.C.Sign() <= 0 {
+			sfail("%s: divisor must be a positive constant", name)
+		}
+		if a.C != nil {
+			q, m := floorDivMod(a.C, b.C)
+			if name == "fdiv" {
+				return SVal{C: q}
+			}
+			return SVal{C: m}
+		}
+		at := e.asInt(a, tyInt)
+		if !o.M.BV {
+			if name == "fdiv" {
+				return SVal{V: o.Div(at, o.IntBig(b.C)), T: typInt}
+			}
+			return SVal{V: o.Mod(at, o.IntBig(b.C)), T: typInt}
+		}
+		bt := o.BV(b.C, 64)
+		r := o.BVOp("bvsrem", at, bt)
+		m := o.Ite(o.BVCmp("bvslt", r, o.BVi(0, 64)), o.BVOp("bvadd", r, bt), r)
+		if name == "fmod" {
+			return SVal{V: m, T: typInt}
+		}
+		return SVal{V: o.BVOp("bvsdiv", o.BVOp("bvsub", at, m), bt), T: typInt}
+	case "timeYear", "timeMonth", "timeDay", "timeIsZero", "timeUTCMidnight":
+		v := arg(0)
+		tv, ok := v.V.(TimeVal)
+		if !ok {
+			sfail("%s: not a time.Time", name)
+		}
+		switch name {
+		case "timeYear":
+			return SVal{V: tv.Y, T: typInt}
+		case "timeMonth":
+			return SVal{V: tv.M, T: typInt}
+		case "timeDay":
+			return SVal{V: tv.D, T: typInt}
+		case "timeUTCMidnight":
+			return SVal{V: tv.UTCMid, T: typBool}
+		}
+		return SVal{V: tv.Zero, T: typBool}
 	case "bool2int":
 		return SVal{V: o.Ite(e.evalBool(n.Args[0]), o.Idx(1), o.Idx(0)), T: typInt}
 	}
